@@ -30,6 +30,7 @@ import (
 	"go.uber.org/zap/zapcore"
 	"go.uber.org/zap/zzverif/bridge"
 	"verif/harness/internal/ev"
+	"verif/harness/internal/mc"
 )
 
 // failure is one violated expectation of one case.
@@ -467,6 +468,7 @@ func report(run *ev.Run, u *universe, fails []failure) {
 // ---------------------------------------------------------------------------
 
 func main() {
+	mc.MaybeWorker(concHandler)
 	if len(os.Args) > 1 && os.Args[1] == "child" {
 		childMain(os.Args[2:])
 		return
@@ -482,8 +484,12 @@ func main() {
 		}
 		var rf struct {
 			Case struct {
-				IDs []string `json:"ids"`
+				IDs  []string `json:"ids"`
+				Item string   `json:"item"`
 			} `json:"case"`
+		}
+		if err := json.Unmarshal(b, &rf); err == nil && strings.HasPrefix(rf.Case.Item, "c06conc|") {
+			mc.ReplayFromFile(rp, concHandler) // a recorded schedule of the concurrent part
 		}
 		if err := json.Unmarshal(b, &rf); err != nil || len(rf.Case.IDs) == 0 {
 			ev.ToolError("replay file has no case ids: %v", err)
@@ -652,7 +658,15 @@ func main() {
 
 	report(run, u, fails)
 
+	// ---- part 3: the terminal entry under concurrent use of the logger (all schedules within the bound)
+	var cs concStats
+	if replayID == "" && (part == "" || part == "conc") {
+		cs = partConc(run, run.Thorough())
+		evals += int(cs.execs)
+	}
+
 	run.Assume = []string{
+		"concurrent part: scheduling points at synchronisation operations, pool operations and inside the recording sink's Write and Sync; preemption bound as stated; custom panic/fatal hooks stand where the process would be lost and record what is durable in the sink at that moment",
 		"zap's exit function is observed through internal/exit.Stub (the bridge): it records that exit was requested and the status, not how often; 'exactly once' is therefore checked for panics, Goexit and custom hooks, 'at least once and nothing else' for the stubbed exit (the real-process part observes the actual exit status)",
 		"the custom hook of the alphabet records and returns; hooks that themselves misbehave are outside the statement",
 		"histories: per case one logger sees (ordinary entries, terminal call) x 3; what reached a sink during an occurrence's call must consist of complete lines ending with that occurrence's line (earlier buffered entries may be flushed along), so state kept in a core between entries is exercised; histories are bounded at 3 terminal calls and at most 2 ordinary entries before each, with the five listed clock behaviours; forward clock jumps that would reset the sampler window are not in the alphabet",
@@ -663,29 +677,36 @@ func main() {
 		"front ends: every method of *zap.Logger, *zap.SugaredLogger, *zapgrpc.Logger named DPanic*/Panic*/Fatal* or taking a zapcore.Level and returning nothing or a *CheckedEntry; methods with another result type are listed under skipped_methods",
 	}
 	run.Finish(map[string]any{
-		"evaluations":                       evals,
-		"distinct_nontrivial":               len(distinct),
-		"rule":                              "every in-process case is a HISTORY on one logger/core: the terminal call is made 3 times on the same logger (the panic recovered / the stubbed exit returned from / the goroutine of a Goexit replaced in between), each time preceded by ordinary entries (none | info+error | info + a non-terminal production DPanic on a sibling logger sharing the core), under an injected clock (real time.Now stamps well within a second | identical | 1ns apart | 1ns backwards | 1h backwards); the terminal action and the sink state at the moment of the action (line in the underlying sink below any BufferedWriteSyncer - 256KiB/4096/16 byte buffers, 1h flush interval - and Sync after the last Write, the line carrying the time the clock returned for that very entry) are checked for EVERY occurrence; the (entries-before, clock) combination rotates over the cases so that each (kind group, level) meets all 15 combinations. Cases: in-process: four groups of logger kinds (healthy core compositions; cores with failing sinks - Write failing always / from the k-th write, tees in both orders, buffered over a failing sink, failing Sync; loggers built by zap.Config over base x DisableStacktrace x DisableCaller x Level x Sampling with Development as the development dimension; the preset constructors NewProduction/NewDevelopment/NewExample), each as the full product kinds x development x hook settings (panic hook x fatal hook; quick pairs the i-th choices, thorough the full product) x logger derivations (crossed in thorough, rotated with the call forms in quick) x call forms (front-end method x via x level x argument shape, including blank shapes: empty message, empty template, no arguments, and for the std-log bridge empty / white-space-only / padded text), every case run on the real code with the exit stubbed; real-process: sink family x front end x level in a re-executed child leaving through the real os.Exit / uncaught panic. distinct = distinct (kind group, front-end method, level+entry condition, governing hook choice, development, expected action, blank/non-blank message) classes plus distinct child configurations; every class asserts a terminal action (or its absence for DPanic outside development) and the sink state at that moment",
-		"samples":                           samples,
-		"exhaustive":                        true,
-		"inprocess_cases":                   inproc,
-		"child_runs":                        len(todo),
-		"terminal_calls_checked":            inproc*occurrences + len(todo),
-		"occurrences_per_case":              occurrences,
-		"entries_before_each_terminal_call": []string{histNone, histOrdinary, histSibling},
-		"clock_modes":                       clockModes,
-		"group_level_history_clock_classes": len(comboSeen),
-		"group_cases":                       groupCases,
-		"group_wall_s":                      groupWall,
-		"cores":                             nKinds[""],
-		"failing_sink_cores":                nKinds["fault"],
-		"config_built_kinds":                nKinds["config"],
-		"constructor_kinds":                 nKinds["constructor"],
-		"hook_settings":                     len(hooksFull),
-		"derivations":                       len(dersFull),
-		"call_forms":                        len(d.forms),
-		"front_end_methods":                 d.methods,
-		"skipped_methods":                   append([]string{}, d.skipped...),
-		"levels":                            []string{zapcore.DPanicLevel.String(), zapcore.PanicLevel.String(), zapcore.FatalLevel.String()},
+		"evaluations":                        evals,
+		"distinct_nontrivial":                len(distinct),
+		"rule":                               "every in-process case is a HISTORY on one logger/core: the terminal call is made 3 times on the same logger (the panic recovered / the stubbed exit returned from / the goroutine of a Goexit replaced in between), each time preceded by ordinary entries (none | info+error | info + a non-terminal production DPanic on a sibling logger sharing the core), under an injected clock (real time.Now stamps well within a second | identical | 1ns apart | 1ns backwards | 1h backwards); the terminal action and the sink state at the moment of the action (line in the underlying sink below any BufferedWriteSyncer - 256KiB/4096/16 byte buffers, 1h flush interval - and Sync after the last Write, the line carrying the time the clock returned for that very entry) are checked for EVERY occurrence; the (entries-before, clock) combination rotates over the cases so that each (kind group, level) meets all 15 combinations. Cases: in-process: four groups of logger kinds (healthy core compositions; cores with failing sinks - Write failing always / from the k-th write, tees in both orders, buffered over a failing sink, failing Sync; loggers built by zap.Config over base x DisableStacktrace x DisableCaller x Level x Sampling with Development as the development dimension; the preset constructors NewProduction/NewDevelopment/NewExample), each as the full product kinds x development x hook settings (panic hook x fatal hook; quick pairs the i-th choices, thorough the full product) x logger derivations (crossed in thorough, rotated with the call forms in quick) x call forms (front-end method x via x level x argument shape, including blank shapes: empty message, empty template, no arguments, and for the std-log bridge empty / white-space-only / padded text), every case run on the real code with the exit stubbed; real-process: sink family x front end x level in a re-executed child leaving through the real os.Exit / uncaught panic; concurrent: every schedule within the preemption bound of one thread making a fatal / panic / development-dpanic call while one or two other threads sync and log through the same logger, over Lock, CombineWriteSyncers(1), BufferedWriteSyncer, Lock(BufferedWriteSyncer) and a tee, the hook recording what is durable in the sink when the terminal action starts. distinct = distinct (kind group, front-end method, level+entry condition, governing hook choice, development, expected action, blank/non-blank message) classes plus distinct child configurations; every class asserts a terminal action (or its absence for DPanic outside development) and the sink state at that moment",
+		"samples":                            samples,
+		"concurrent_drivers":                 cs.drivers,
+		"concurrent_schedules":               cs.execs,
+		"concurrent_scheduling_points":       cs.steps,
+		"concurrent_distinct_outcomes":       cs.outcomes,
+		"concurrent_preemption_bound":        cs.preemptions,
+		"concurrent_exhaustive_within_bound": cs.exhaustive,
+		"concurrent_families":                concFamilies,
+		"exhaustive":                         true,
+		"inprocess_cases":                    inproc,
+		"child_runs":                         len(todo),
+		"terminal_calls_checked":             inproc*occurrences + len(todo),
+		"occurrences_per_case":               occurrences,
+		"entries_before_each_terminal_call":  []string{histNone, histOrdinary, histSibling},
+		"clock_modes":                        clockModes,
+		"group_level_history_clock_classes":  len(comboSeen),
+		"group_cases":                        groupCases,
+		"group_wall_s":                       groupWall,
+		"cores":                              nKinds[""],
+		"failing_sink_cores":                 nKinds["fault"],
+		"config_built_kinds":                 nKinds["config"],
+		"constructor_kinds":                  nKinds["constructor"],
+		"hook_settings":                      len(hooksFull),
+		"derivations":                        len(dersFull),
+		"call_forms":                         len(d.forms),
+		"front_end_methods":                  d.methods,
+		"skipped_methods":                    append([]string{}, d.skipped...),
+		"levels":                             []string{zapcore.DPanicLevel.String(), zapcore.PanicLevel.String(), zapcore.FatalLevel.String()},
 	})
 }
